@@ -17,7 +17,6 @@ pub struct StatusCode { pub bits: u32 }
 impl StatusCode {
     pub const BadSecureChannelIdInvalid: StatusCode = StatusCode { bits: 0x8022_0000 };
 }
-pub struct MessageChunkHeader { pub message_type: MessageChunkType }
 pub struct SecurityHeader { pub x: u64 }
 pub struct SequenceHeader { pub sequence_number: u32, pub request_id: u32 }
 pub struct ChunkInfo { pub security_header: SecurityHeader, pub sequence_header: SequenceHeader }
@@ -107,7 +106,7 @@ def build(manifest):
     if g == f:
         raise Undecided('lost anchor: self.pending_chunks.drain(..).collect()')
     g = splice_contract(g, SPEC['process_final_chunk'][1], 'r')
-    types = '\n'.join([mc.enum('MessageChunkType'), tt.struct('TcpTransport', keep_fields=['secure_channel', 'pending_chunks'])])
+    types = '\n'.join([mc.enum('MessageChunkType'), mc.enum('MessageIsFinalType'), mc.struct('MessageChunkHeader'), tt.struct('TcpTransport', keep_fields=['secure_channel', 'pending_chunks'])])
     a = Asm()
     a.add('use vstd::prelude::*;\n' + macro_def(lb, 'trace_read_lock') + '\nverus! {\nglobal size_of usize == 8;\n', 'prelude', 'env')
     a.add(norm_vis(types), 'types', 'env')
